@@ -141,7 +141,7 @@ def byline_judge(scenario, agree, p, nlines):
         elif kk == "complete_run":
             got.append((kk, None))
     ys = [v.text if isinstance(v, Residual) else v for k, kk, v in p.trace if k == "yield"]
-    want, wy, outcome = byline_expected(scenario, agree, p, nlines)
+    want, wy, outcome = byline_expected(scenario, agree, p, nlines, members=p.__dict__.get("members", 2))
     cfg = [(t, v) for t, v in p.choices if not t.startswith("self.")]
     mode = "if_all_agree" if agree else "union"
     if scenario == "abort" and not (p.choices and p.choices[-1] == ("handler re-raises", True)) and any(v for t, v in p.choices if t.endswith("raises")):
